@@ -604,6 +604,7 @@ def install(world):
             raise PathAbort("prefix-depth-bound")
         raise PyRaise(ExcVal("IndexError", ("pop from empty list",)))
     meth("PrefList", "append", lambda ex, a, kw: a[0].items.append(a[1]))
+    meth("PrefList", "extend", lambda ex, a, kw: a[0].items.extend(BI.iterate(W, ex, a[1])))
     meth("PrefList", "pop", pl_pop)
 
     # dict (concrete python dict and DictVal)
